@@ -17,7 +17,7 @@ pub(crate) fn radio_wl(hp: bool) -> Sx126x<MockSpi, MockIv, Stm32wl> {
 //@bounds all 8 SF x 10 BW x 4 CR, any frequency >= 400 MHz: decision of create_modulation_params and byte 4 of the SetModulationParams command
 //@encodes Sx126x::create_modulation_params, Sx126x::set_modulation_params, spreading_factor_value, bandwidth_value, coding_rate_value
 #[kani::proof]
-#[kani::unwind(12)]
+#[kani::unwind(26)]
 fn ldro_rule_sx126x() {
     let mut r = radio_1262();
     let (sf, bw, cr) = (any_sf(), any_bw(), any_cr());
@@ -37,3 +37,199 @@ fn ldro_rule_sx126x() {
         Err(_) => kani::assert(false, "C15: every (SF, BW) pair is supported by the SX126x"),
     }
 }
+
+// ---- C17: PA configuration decodes to the requested power -------------------------------------
+/// datasheet Table 13-21 (optimal PA settings): (paDutyCycle, hpMax, deviceSel) -> (output power
+/// at the anchor SetTxParams value, anchor); lower SetTxParams values reduce the output 1:1
+fn ref_pa(duty: u8, hp_max: u8, dev_sel: u8, stm32wl_hp: bool) -> Option<(i32, i32)> {
+    match (duty, hp_max, dev_sel) {
+        (0x04, 0x07, 0) => Some((22, 22)),
+        (0x03, 0x05, 0) => Some((20, 22)),
+        (0x02, 0x03, 0) => Some((17, 22)),
+        // ST characterises this row for the STM32WL with SetTxParams = target power
+        (0x02, 0x02, 0) => Some(if stm32wl_hp { (14, 14) } else { (14, 22) }),
+        (0x06, 0x00, 1) => Some((15, 14)),
+        (0x04, 0x00, 1) => Some((14, 14)),
+        (0x01, 0x00, 1) => Some((10, 13)),
+        _ => None,
+    }
+}
+
+fn tx_power_step<C: Sx126xVariant>(mut r: Sx126x<MockSpi, MockIv, C>, hp: bool, wl: bool) {
+    let req: i32 = kani::any();
+    let is_prep: bool = kani::any();
+    let f: u32 = kani::any();
+    kani::assume(f >= 400_000_000);
+    let mp = ModulationParams { spreading_factor: SpreadingFactor::_7, bandwidth: Bandwidth::_125KHz, coding_rate: CodingRate::_4_5, low_data_rate_optimize: 0, frequency_in_hz: f };
+    let res = block_on(r.set_tx_power_and_ramp_time(req, Some(&mp), is_prep));
+    kani::assert(res.is_ok(), "C17: setting the TX power on a fault-free bus succeeds");
+    let l = spi();
+    // the last two transactions are SetPaConfig and SetTxParams
+    kani::assert(l.n >= 2, "C13/C17: SetPaConfig and SetTxParams are issued");
+    let pa = &l.t[l.n - 2];
+    let tp = &l.t[l.n - 1];
+    kani::assert(pa.w[0] == 0x95 && pa.wlen == 5 && pa.w[4] == 0x01, "C13: SetPaConfig framing (paLut = 1)");
+    kani::assert(tp.w[0] == 0x8E && tp.wlen == 3, "C13: SetTxParams framing");
+    kani::assert(pa.w[3] == if hp { 0 } else { 1 }, "C13: deviceSel matches the PA in use");
+    kani::assert(tp.w[2] == if is_prep { 0x02 } else { 0x04 }, "C13: ramp time 40 us before TX / 200 us at init");
+    let (lo, hi) = if hp { (-9, 22) } else { (-17, 15) };
+    let want = if req < lo { lo } else if req > hi { hi } else { req };
+    match ref_pa(pa.w[1], pa.w[2], pa.w[3], wl && hp) {
+        Some((pmax, anchor)) => {
+            let txp = tp.w[1] as i8 as i32;
+            kani::assert(txp >= if hp { -9 } else { -17 } && txp <= if hp { 22 } else { 14 }, "C17: SetTxParams power inside the range the chip accepts");
+            let decoded = pmax - (anchor - txp);
+            kani::assert(decoded == want, "C17: PA settings decode to the requested power clamped into the chip's range");
+            kani::assert(!(req >= lo && req <= hi) || decoded <= req, "C17: never above the request inside the range");
+        }
+        None => kani::assert(false, "C17: SetPaConfig values are not a row of datasheet table 13-21"),
+    }
+    kani::cover!(req == 22, "22 dBm");
+}
+
+//@h id=tx_power_sx1262 props=C17,C13 tier=quick build=phy cost=40 timeout=900
+//@bounds every i32 power request, both ramp selections, any frequency >= 400 MHz, arbitrary TxClampCfg register content
+//@encodes Sx126x::set_tx_power_and_ramp_time, set_pa_config, PaTable::lookup, SX1262_PA_TABLE
+#[kani::proof]
+#[kani::unwind(26)]
+fn tx_power_sx1262() {
+    tx_power_step(radio_1262(), true, false);
+}
+//@h id=tx_power_sx1261 props=C17,C13 tier=quick build=phy cost=40 timeout=900
+//@bounds every i32 power request, both ramp selections, any frequency >= 400 MHz
+//@encodes Sx126x::set_tx_power_and_ramp_time, PaTable::lookup, SX1261_PA_TABLE
+#[kani::proof]
+#[kani::unwind(26)]
+fn tx_power_sx1261() {
+    tx_power_step(radio_1261(), false, false);
+}
+//@h id=tx_power_stm32wl_hp props=C17,C13 tier=quick build=phy cost=40 timeout=900
+//@bounds every i32 power request, STM32WL high-power PA table
+//@encodes Sx126x::set_tx_power_and_ramp_time, PaTable::lookup, STM32WL_HP_PA_TABLE
+#[kani::proof]
+#[kani::unwind(26)]
+fn tx_power_stm32wl_hp() {
+    tx_power_step(radio_wl(true), true, true);
+}
+
+//@h id=symb_timeout_sx126x props=C17,C13 tier=quick build=phy cost=40 timeout=900
+//@bounds every u16 symbol count: the mantissa/exponent written by SetLoRaSymbNumTimeout decodes (mant << (2*exp+1)) to at least min(request, 248) symbols
+//@encodes Sx126x::set_lora_symbol_num_timeout
+#[kani::proof]
+#[kani::unwind(26)]
+fn symb_timeout_sx126x() {
+    let mut r = radio_1262();
+    let n: u16 = kani::any();
+    let res = block_on(r.set_lora_symbol_num_timeout(n));
+    kani::assert(res.is_ok(), "C17: fault-free bus");
+    let l = spi();
+    let t = &l.t[0];
+    kani::assert(t.w[0] == 0xA0 && t.wlen == 2, "C13: SetLoRaSymbNumTimeout framing");
+    let val = t.w[1];
+    // datasheet 13.4.9: SymbNum = mant * 2^(2*exp + 1) with the register byte = mant<<3 | exp;
+    // the command byte carries the symbol count directly (0..=248 after rounding to mant/exp)
+    let want = if n > 248 { 248 } else { n } as u32;
+    kani::assert(val as u32 >= want, "C17: symbol-count timeout shorter than requested");
+    if n > 0 {
+        kani::assert(l.n == 2, "C17: SynchTimeout register written for non-zero timeouts");
+        let reg = l.t[1].w[3];
+        let exp = (reg & 7) as u32;
+        let mant = (reg >> 3) as u32;
+        kani::assert(l.t[1].w[0] == 0x0D && l.t[1].w[1] == 0x07 && l.t[1].w[2] == 0x06, "C13: WriteRegister 0x0706 (SynchTimeout)");
+        kani::assert(mant << (2 * exp + 1) == val as u32, "C17: mantissa/exponent encode the programmed symbol count");
+    }
+    kani::cover!(n == 65535, "largest request");
+}
+
+//@h id=pkt_status_sx126x props=C17 tier=quick build=phy cost=30 timeout=900
+//@bounds all 2^24 raw packet status triples (and any non-error status byte): RSSI = -raw/2, SNR = raw/4 (signed) within 1 dB, no overflow
+//@encodes Sx126x::get_rx_packet_status, Sx126x::get_rssi
+#[kani::proof]
+#[kani::unwind(26)]
+fn pkt_status_sx126x() {
+    let mut r = radio_1262();
+    let res = block_on(r.get_rx_packet_status());
+    let l = spi();
+    let st = l.script[0][0];
+    let (raw_rssi, raw_snr) = (l.script[0][1], l.script[0][2]);
+    match res {
+        Ok(ps) => {
+            // datasheet 13.5.3: RssiPkt = -raw/2 dBm, SnrPkt = raw/4 dB (two's complement)
+            let rssi2 = -(raw_rssi as i32); // in half dB
+            kani::assert((ps.rssi as i32) * 2 <= rssi2 + 2 && (ps.rssi as i32) * 2 >= rssi2 - 2, "C17: reported RSSI within 1 dB of -raw/2");
+            let snr4 = raw_snr as i8 as i32; // in quarter dB
+            kani::assert((ps.snr as i32) * 4 <= snr4 + 4 && (ps.snr as i32) * 4 >= snr4 - 4, "C17: reported SNR within 1 dB of raw/4");
+            kani::cover!(raw_snr == 0x7F, "largest positive raw SNR");
+        }
+        Err(_) => {
+            kani::cover!(true, "error status");
+            let _ = st;
+        }
+    }
+}
+
+// ---- C18: fetching a received packet never overruns the caller's buffer ------------------------
+fn rx_payload_126x<const B: usize>(implicit: bool) {
+    let mut r = radio_1262();
+    let canary: u8 = kani::any();
+    let mut buf = [canary; B];
+    let pp = PacketParams { preamble_length: 8, implicit_header: implicit, payload_length: kani::any(), crc_on: true, iq_inverted: true };
+    let res = block_on(r.get_rx_payload(&pp, &mut buf));
+    let l = spi();
+    let status = l.script[0][0];
+    let (rx_len, offset) = (l.script[0][1], l.script[0][2]);
+    let k: usize = kani::any();
+    kani::assume(k < B);
+    match res {
+        Ok(n) => {
+            let n = n as usize;
+            kani::assert(n <= B, "C18: returned length exceeds the caller's buffer");
+            // implicit header: the configured length register (second transaction), else the reported length
+            let want = if implicit { l.script[1][0] as usize } else { rx_len as usize };
+            kani::assert(n == want, "C18: returned length is the length the chip reported (implicit header: the configured length)");
+            let rd = &l.t[l.n - 1];
+            kani::assert(rd.w[0] == 0x1E && rd.w[1] == offset && rd.wlen == 3, "C18: ReadBuffer at the offset the chip reported");
+            kani::assert(rd.rlen == n, "C18: exactly the packet's bytes are fetched");
+            if k >= n {
+                kani::assert(buf[k] == canary, "C18: bytes beyond the packet must be left untouched");
+            } else if n > MAXRB {
+                if k == l.big_j {
+                    kani::assert(buf[k] == l.big_v, "C18: packet bytes come from the chip's buffer");
+                }
+            } else {
+                kani::assert(buf[k] == l.script[l.n - 1][k % MAXRB], "C18: packet bytes come from the chip's buffer");
+            }
+            kani::cover!(n == B && B > 0, "packet fills the buffer exactly");
+        }
+        Err(e) => {
+            kani::assert(buf[k] == canary, "C18: a failed fetch must not touch the buffer");
+            kani::cover!(matches!(e, RadioError::PayloadSizeMismatch(_, _)), "chip reports more bytes than the buffer holds");
+            let _ = status;
+        }
+    }
+}
+
+macro_rules! rxp126 { ($name:ident, $b:expr, $imp:expr) => {
+    #[kani::proof]
+    #[kani::unwind(26)]
+    fn $name() { rx_payload_126x::<$b>($imp) }
+}; }
+//@h id=rx_payload_sx126x_b0 props=C18 tier=quick build=phy cost=20 timeout=900
+//@bounds caller buffer of 0 bytes, explicit header; every status byte, reported length 0..=255, offset 0..=255
+//@encodes Sx126x::get_rx_payload, OpStatusErrorMask::is_error, SpiInterface::{read, read_with_status}
+rxp126!(rx_payload_sx126x_b0, 0, false);
+//@h id=rx_payload_sx126x_b1 props=C18 tier=quick build=phy cost=20 timeout=900
+//@bounds caller buffer of 1 byte, explicit header; all reported lengths/offsets/status
+rxp126!(rx_payload_sx126x_b1, 1, false);
+//@h id=rx_payload_sx126x_b12 props=C18 tier=quick build=phy cost=20 timeout=900
+//@bounds caller buffer of 12 bytes, implicit header (length from the PayloadLength register, any value)
+rxp126!(rx_payload_sx126x_b12, 12, true);
+//@h id=rx_payload_sx126x_b64 props=C18 tier=quick build=phy cost=30 timeout=900
+//@bounds caller buffer of 64 bytes, explicit header
+rxp126!(rx_payload_sx126x_b64, 64, false);
+//@h id=rx_payload_sx126x_b255 props=C18 tier=quick build=phy cost=30 timeout=900
+//@bounds caller buffer of 255 bytes, explicit header
+rxp126!(rx_payload_sx126x_b255, 255, false);
+//@h id=rx_payload_sx126x_b256i props=C18 tier=quick build=phy cost=30 timeout=900
+//@bounds caller buffer of 256 bytes, implicit header
+rxp126!(rx_payload_sx126x_b256i, 256, true);
